@@ -14,7 +14,7 @@
      A revision id is [g, x]: generation and digest rank.  The digest is a function of (parent, body, deleted): `revs` is the
      content-addressed table id -> [par, body, del]; creating the same content twice yields the same id on both peers
      (two peers deleting the same revision produce the SAME tombstone id).  Fresh digests are drawn from `pool`.
-   v4 state: current version [src, ver], previous versions pv (no merge versions: the default resolver never merges),
+   v4 state: current version [src, ver], merge versions mv (only with resolver = "merge"), previous versions pv,
      `body`, `del`.  (The rev tree that v4 keeps alongside is not modelled: under v4 the property identifies a revision by
      its current version; see NOTES.md.)
 
@@ -23,7 +23,8 @@
    Impl* conjuncts define the implementation variables, Ghost* the history variables; Trace_Replication reuses them. *)
 EXTENDS Integers, Sequences, FiniteSets, TLC
 
-CONSTANTS Protos,      \* protocols explored: subset of {"v3", "v4"}
+CONSTANTS Resolvers,   \* resolvers explored: subset of {"default", "merge"} (merge = custom resolver merging two live revisions; v4 only)
+          Protos,      \* protocols explored: subset of {"v3", "v4"}
           DirSets,     \* direction sets explored: subset of {{"push"}, {"pull"}, {"push", "pull"}}
           Docs,        \* document ids (small naturals)
           MaxEdits,    \* bound on environment writes
@@ -46,14 +47,16 @@ Max(a, b) == IF a >= b THEN a ELSE b
 
 NoRev == [g |-> 0, x |-> 0]
 ZeroPV == [A |-> 0, B |-> 0]
-Absent == [tree |-> {}, cur |-> NoRev, src |-> "", ver |-> 0, pv |-> ZeroPV, body |-> 0, del |-> FALSE]
+Absent == [tree |-> {}, cur |-> NoRev, src |-> "", ver |-> 0, mv |-> ZeroPV, pv |-> ZeroPV, body |-> 0, del |-> FALSE]
 
 VARIABLES
   proto,      \* configuration of this behaviour: "v3" (rev-tree protocol) | "v4" (version vectors)
   dirs,       \* configuration of this behaviour: the directions of the replication (subset of AllDirs)
+  resolver,   \* configuration of this behaviour: conflict resolver of the active peer, "default" | "merge"
   doc,        \* impl: [Peers -> [Docs -> document state]]
   revs,       \* impl (v3): [Docs -> [revision id -> [par, body, del]]] - content addressed revision table
-  pool,       \* configuration (v3): [Docs -> set of revision ids that may be generated]
+  pool,       \* configuration: [Docs -> set of revision ids that may be generated (v3); [g |-> 0, x |-> version] = a merge
+              \* version that may be generated (v4, trace validation only)]
   seq,        \* impl: [Peers -> Nat] last sequence allocated on the peer
   dseq,       \* impl: [Peers -> [Docs -> Nat]] sequence of the document's last write on the peer (0 = never)
   running,    \* impl: the replication is running
@@ -71,7 +74,7 @@ VARIABLES
   hist
 
 impl  == <<doc, revs, seq, dseq, running, cursor, ckpt, msgs, out>>
-ghost == <<proto, dirs, pool, twrote, edits, stops, reruns, rerun, snap, sync, swapped, devd>>
+ghost == <<proto, dirs, resolver, pool, twrote, edits, stops, reruns, rerun, snap, sync, swapped, devd>>
 vars  == <<impl, ghost, hist>>
 view  == <<impl, ghost>>
 
@@ -123,30 +126,52 @@ TreeState(R, d, T) ==
   LET w == WinnerIn(R, d, T) IN
   [Absent EXCEPT !.tree = T, !.cur = w, !.body = InfoIn(R, d, w).body, !.del = InfoIn(R, d, w).del]
 
-(* ---- v4: hybrid logical vectors without merge versions (transcribed from specs/HLV, mv = {}) ---- *)
-Found(h, x) == x # "" /\ (x = h.src \/ h.pv[x] # 0)
-Val(h, x) == IF x = h.src THEN h.ver ELSE h.pv[x]
-Dominates(h, x, v) == Found(h, x) /\ Val(h, x) >= v
-MaxForSource(h, x) == IF x = h.src THEN h.ver ELSE h.pv[x]
-(* UpdateWithIncomingHLV(h := local, inc): inc.UpdateHistory(h); *h = *inc.  AddVersionToPV ignores a source that is
-   inc's cv source (sourceIsCV) and keeps the larger pv value otherwise *)
-UpdateWith(h, inc) ==
-  [inc EXCEPT !.pv = [x \in Peers |->
-      IF x = inc.src THEN inc.pv[x]
-      ELSE Max(inc.pv[x], Max(IF h.src = x THEN h.ver ELSE 0, h.pv[x]))]]
-(* AddVersion(newCV = p@v) on a local write *)
+(* ---- v4: hybrid logical vectors (operators transcribed from specs/HLV, sources = the two peers).  Merge versions only
+   arise with a merging (custom) resolver: resolver = "merge" ---- *)
+Found(h, x) == x # "" /\ (x = h.src \/ h.mv[x] # 0 \/ h.pv[x] # 0)
+Val(h, x) == IF x = h.src THEN h.ver ELSE IF h.mv[x] # 0 THEN h.mv[x] ELSE h.pv[x]        \* GetValue: cv, then mv, then pv
+Dominates(h, x, v) == Found(h, x) /\ Val(h, x) >= v                                       \* DominatesSource
+MaxForSource(h, x) == IF x = h.src THEN Max(h.ver, h.mv[x]) ELSE IF h.pv[x] # 0 THEN h.pv[x] ELSE h.mv[x]
+(* InvalidateMV: every mv entry except the one sharing the cv source is written to pv *)
+InvalidateMV(h) == [h EXCEPT !.pv = [x \in Peers |-> IF h.mv[x] # 0 /\ x # h.src THEN h.mv[x] ELSE h.pv[x]], !.mv = ZeroPV]
+(* AddVersion(newCV = p@v), v above MaxForSource(h, p) *)
 AddVersion(h, p, v) ==
   IF h.src = "" THEN [h EXCEPT !.src = p, !.ver = v]
-  ELSE IF h.src = p THEN [h EXCEPT !.ver = v]
-  ELSE [h EXCEPT !.src = p, !.ver = v, !.pv = [x \in Peers |-> IF x = p THEN 0 ELSE IF x = h.src THEN h.ver ELSE h.pv[x]]]
+  ELSE LET i == InvalidateMV(h) IN
+       IF h.src = p THEN [i EXCEPT !.ver = v]
+       ELSE [i EXCEPT !.src = p, !.ver = v, !.pv = [x \in Peers |-> IF x = p THEN 0 ELSE IF x = h.src THEN h.ver ELSE i.pv[x]]]
+(* AddVersionToPV: outcome and effect *)
+PVStatus(h, x, v) ==
+  IF h.src = x THEN "sourceIsCV"
+  ELSE IF h.mv[x] # 0 THEN (IF h.mv[x] >= v THEN "versionInMVNewer" ELSE "versionInMVOlder")
+  ELSE IF h.pv[x] = 0 \/ h.pv[x] < v THEN "versionAddedToPV" ELSE "versionInPVNewer"
+AddToPV(h, x, v) == IF PVStatus(h, x, v) = "versionAddedToPV" THEN [h EXCEPT !.pv[x] = v] ELSE h
+AddAllToPV(h, m) == [h EXCEPT !.pv = [x \in Peers |-> IF m[x] # 0 /\ PVStatus(h, x, m[x]) = "versionAddedToPV" THEN m[x] ELSE h.pv[x]]]
+(* UpdateHistory(h, inc): cv, mv (InvalidateMV when an incoming mv entry is newer than h's), pv - results of the cv / pv
+   additions ignored as in the code (the C10 finding) *)
+UpdateHistory(h, inc) ==
+  LET h1 == IF inc.src # "" THEN AddToPV(h, inc.src, inc.ver) ELSE h
+      inval == \E x \in Peers : inc.mv[x] # 0 /\ PVStatus(h1, x, inc.mv[x]) = "versionInMVOlder"
+      h2 == AddAllToPV(IF inval THEN InvalidateMV(h1) ELSE h1, inc.mv)
+  IN AddAllToPV(h2, inc.pv)
+(* UpdateWithIncomingHLV(h := local, inc): inc.UpdateHistory(h); *h = *inc *)
+UpdateWith(h, inc) == UpdateHistory(inc, h)
+(* MergeWithIncomingHLV(newCV = p@v, inc) *)
+MergeWith(h, p, v, inc) ==
+  LET a == AddVersion(h, p, v)
+      m1 == [a EXCEPT !.mv[inc.src] = inc.ver, !.pv[inc.src] = 0]
+      m2 == [m1 EXCEPT !.mv[h.src] = h.ver, !.pv[h.src] = 0]
+  IN UpdateHistory(m2, inc)
 (* IsInConflict(local, incoming) *)
 Classify(l, i) ==
   IF l.src = i.src /\ l.ver = i.ver THEN "AlreadyPresent"
   ELSE IF Dominates(i, l.src, l.ver) THEN "NoConflict"
   ELSE IF Dominates(l, i.src, i.ver) THEN "AlreadyPresent"
+  ELSE IF i.mv # ZeroPV /\ l.mv # ZeroPV /\ i.mv = l.mv THEN "NoConflict"
   ELSE "Conflict"
-HLVPart(s) == [src |-> s.src, ver |-> s.ver, pv |-> s.pv]
-WithHLV(s, h) == [s EXCEPT !.src = h.src, !.ver = h.ver, !.pv = h.pv]
+MergeBody(a, b) == a * 100 + b          \* the harness's merge function: k = local.k * 100 + remote.k
+HLVPart(s) == [src |-> s.src, ver |-> s.ver, mv |-> s.mv, pv |-> s.pv]
+WithHLV(s, h) == [s EXCEPT !.src = h.src, !.ver = h.ver, !.mv = h.mv, !.pv = h.pv]
 
 -----------------------------------------------------------------------------
 Exists(s) == IF proto = "v3" THEN s.cur # NoRev ELSE s.src # ""
@@ -185,7 +210,7 @@ DeviationIn(D, R, d) == CvSwapIn(D, d) \/ UnsentTombIn(D, R, d)
 Bidirectional == dirs = AllDirs
 
 Init ==
-  /\ proto \in Protos /\ dirs \in DirSets
+  /\ proto \in Protos /\ dirs \in DirSets /\ resolver \in Resolvers /\ (resolver = "merge" => proto = "v4")
   /\ doc = [p \in Peers |-> [d \in Docs |-> Absent]]
   /\ revs = [d \in Docs |-> <<>>] /\ seq = [p \in Peers |-> 0] /\ dseq = [p \in Peers |-> [d \in Docs |-> 0]]
   /\ running = FALSE /\ cursor = [x \in AllDirs |-> 0] /\ ckpt = [x \in AllDirs |-> 0] /\ msgs = [x \in AllDirs |-> {}]
@@ -225,11 +250,13 @@ ImplWriteV3(p, d, kind, body) ==
 VersFor(p, d) ==
   LET floor == MaxForSource(doc[p][d], p)
       PD == Peers \X Docs
-      own == {doc[z[1]][z[2]].ver : z \in {z \in PD : doc[z[1]][z[2]].src = p}} \cup {doc[q][e].pv[p] : q \in Peers, e \in Docs} \cup {floor}
-      all == {doc[q][e].ver : q \in Peers, e \in Docs} \cup {doc[q][e].pv[y] : q \in Peers, e \in Docs, y \in Peers} \cup {0}
+      own == {doc[z[1]][z[2]].ver : z \in {z \in PD : doc[z[1]][z[2]].src = p}} \cup {doc[q][e].pv[p] : q \in Peers, e \in Docs} \cup {doc[q][e].mv[p] : q \in Peers, e \in Docs} \cup {floor}
+      all == {doc[q][e].ver : q \in Peers, e \in Docs} \cup {doc[q][e].pv[y] : q \in Peers, e \in Docs, y \in Peers} \cup {doc[q][e].mv[y] : q \in Peers, e \in Docs, y \in Peers} \cup {0}
       mo == CHOOSE m \in own : \A o \in own : o <= m
       ma == CHOOSE m \in all : \A o \in all : o <= m
   IN {v \in {mo + 1, ma + 1, ma} : v > mo /\ v <= MaxVer}
+AllVers == {doc[q][e].ver : q \in Peers, e \in Docs} \cup {doc[q][e].pv[y] : q \in Peers, e \in Docs, y \in Peers}
+           \cup {doc[q][e].mv[y] : q \in Peers, e \in Docs, y \in Peers} \cup {0}
 ImplWriteV4(p, d, kind, body, v) ==
   LET s == doc[p][d] IN
   /\ v > MaxForSource(s, p)
@@ -243,7 +270,7 @@ ImplWrite(p, d, kind, body, v) ==
   /\ UNCHANGED <<running, cursor, ckpt, msgs>>
   /\ out' = [a |-> "Write", d |-> d, res |-> kind]
 
-GhostSync == /\ UNCHANGED <<proto, dirs>>
+GhostSync == /\ UNCHANGED <<proto, dirs, resolver>>
              /\ sync' = (running' /\ (\A x \in dirs : msgs'[x] = {}) /\ \A x \in dirs : \A d \in Docs : cursor'[x] >= dseq'[Src(x)][d])
              /\ devd' = devd \cup {d \in Docs : DeviationIn(doc', revs', d)}
 GhostWrite(p, d) ==
@@ -383,6 +410,15 @@ ApplyV4(x, m) ==
      ELSE IF cls = "AlreadyPresent" \/ (cls = "NoConflict" /\ l.src = i.src /\ l.ver = i.ver) THEN skip("known")
      ELSE IF cls = "NoConflict" THEN take(UpdateWith(l, HLVPart(i)), i.body, i.del, "forward")
      ELSE IF x = "push" THEN skip("rejected")
+     ELSE IF resolver = "merge" /\ ~s.del /\ ~i.del
+       THEN \* resolveDocMergeHLV: new version of the active peer above both vectors' floor, both former cvs become merge versions
+            LET floor == Max(MaxForSource(l, t), MaxForSource(HLVPart(i), t))
+                top == CHOOSE w \in AllVers : \A o \in AllVers : o <= w
+                cand == IF Canon THEN {v \in {floor + 1, top + 1} : v <= MaxVer}
+                        ELSE {r.x : r \in {q \in pool[d] : q.g = 0 /\ q.x > floor}} \cup {floor + 1}
+                             \* recorded trace: a merge version it shows, or one it does not show (superseded before the next logged point)
+            IN IF cand = {} THEN skip("starved")
+               ELSE \E v \in cand : take(MergeWith(l, t, v, HLVPart(i)), MergeBody(s.body, i.body), FALSE, "merge")
      ELSE IF localWins THEN take(UpdateWith(HLVPart(i), l), s.body, s.del, "local")    \* resolveLocalWinsHLV
      ELSE take(UpdateWith(l, HLVPart(i)), i.body, i.del, "remote")                     \* resolveRemoteWinsHLV
 
@@ -440,12 +476,14 @@ ConvergedModDev == sync => \A d \in Docs : Promised(d) => (SameView(d) \/ d \in 
 LiveLeaves(p, d) == {r \in LeavesIn(revs, d, doc[p][d].tree) : ~Info(d, r).del}
 SingleWinner == proto = "v3" => \A p \in Peers, d \in Docs : Cardinality(LiveLeaves(p, d)) <= 1
 (* re-running a caught-up replication transfers no revisions: nothing is requested for a document on which the peers
-   agree, and no document on which convergence is promised changes.  (One direction only: a document the environment wrote
-   on the target side is outside the promise - the target may have changed since the source's revision was rejected, and
-   the re-run, which lists everything again, may then deliver it.) *)
+   agree, nothing is ever requested by a pull (what the source lists is known to the target, whoever wrote last), and no
+   document changes.  Excused: push only, a document the environment wrote on the target side - the target may have changed
+   since the source's revision was rejected (409), and the re-run, which lists everything again, may then deliver it. *)
+RerunExcused(d) == d \in devd \/ (dirs = {"push"} /\ twrote["B"][d])
 IdempotentRerun ==
-  rerun => /\ \A p \in Peers, d \in Docs : (Promised(d) /\ d \notin devd) => doc[p][d] = snap[p][d]
-           /\ \A x \in dirs : \A m \in msgs[x] : m.st \in {"wanted", "sent"} => ~(Promised(m.d) /\ SameView(m.d))
+  rerun => /\ \A p \in Peers, d \in Docs : ~RerunExcused(d) => doc[p][d] = snap[p][d]
+           /\ \A x \in dirs : \A m \in msgs[x] : m.st \in {"wanted", "sent"} =>
+                 (x = "pull" => m.d \in devd) /\ ~(Promised(m.d) /\ SameView(m.d))
 (* liveness: edits stop => eventually always converged (push-and-pull) *)
 AllSame == \A d \in Docs : SameView(d) \/ d \in devd
 EventuallyConverged == <>[](AllSame)
